@@ -289,12 +289,50 @@ def _assign_ids(rules):
 def _update_local_references(rules):
     counter = ex.SymbolCounter()
 
+    # The names of the fields of the classes that we're currently visiting.
+    field_names = []
+
+    def is_local(name):
+        return counter.is_bound(name) or any(name in x for x in field_names)
+
     def previsit(node):
         counter.previsit(node)
         if node.is_reference and counter.is_bound(node.name):
             node.is_local = True
 
-    visit(rules, previsit, counter.postvisit)
+        if isinstance(node, ex.Class):
+            field_names.append({x.name for x in node.members if x.name})
+
+        # Record which local names the inline Python code uses, so that they can
+        # be passed along when the expression is compiled to its own function.
+        names = _python_names(node)
+        if names:
+            node.local_names = sorted(x for x in names if is_local(x))
+
+    def postvisit(node):
+        counter.postvisit(node)
+        if isinstance(node, ex.Class):
+            field_names.pop()
+
+    visit(rules, previsit, postvisit)
+
+
+def _python_names(node):
+    if isinstance(node, ex.PythonExpression):
+        sources = [node.source_code]
+    elif isinstance(node, ex.List):
+        sources = [x for x in (node.min_len, node.max_len) if isinstance(x, str)]
+    else:
+        return set()
+
+    names = set()
+    for source in sources:
+        try:
+            tree = ast.parse(source.strip(), mode='eval')
+        except SyntaxError:
+            continue
+        names.update(x.id for x in ast.walk(tree) if isinstance(x, ast.Name))
+    return names
 
 
 def _update_rule_references(rules, extends):
